@@ -1,0 +1,27 @@
+//go:build verif
+
+package sse
+
+// Verification hooks (build tag verif): named yield points that let a test harness force the interleaving of
+// the delivery goroutines started by Send and the exit path of ServeHTTP. With the tag off these are no-ops.
+
+// VerifYield, when set, is called at each yield point and may block until the harness lets the caller go on.
+var VerifYield func(point string, id int64, ch any)
+
+// VerifPanic, when set, receives a panic raised inside a delivery goroutine instead of crashing the process.
+var VerifPanic func(ch any, v any)
+
+func verifYield(point string, id int64, ch any) {
+	if VerifYield != nil {
+		VerifYield(point, id, ch)
+	}
+}
+
+func verifRecover(ch any) {
+	if VerifPanic == nil {
+		return
+	}
+	if r := recover(); r != nil {
+		VerifPanic(ch, r)
+	}
+}
